@@ -170,6 +170,7 @@ impl Oplog {
                         get_slices_checked(&existing, OplogSlot::Entries as usize)?.1;
                     let mut entries: Vec<Entry> = Vec::new();
                     let mut partials: Vec<bool> = Vec::new();
+                    let mut entry_byte_lengths: Vec<u64> = Vec::new();
                     let header_bit = outcome.oplog.get_current_header_bit();
                     while let Some(entry_outcome) = Self::validate_leader(entries_buff)? {
                         if entry_outcome.header_bit != header_bit {
@@ -177,6 +178,7 @@ impl Oplog {
                             break;
                         }
                         let res = Entry::decode(entry_outcome.state)?;
+                        entry_byte_lengths.push((entries_buff.len() - res.1.len()) as u64);
                         entries.push(res.0);
                         entries_buff = res.1;
                         partials.push(entry_outcome.partial_bit);
@@ -186,6 +188,21 @@ impl Oplog {
                     while !partials.is_empty() && partials[partials.len() - 1] {
                         entries.pop();
                         partials.pop();
+                        entry_byte_lengths.pop();
+                    }
+
+                    // The entries found are part of the oplog: the next entry goes after them.
+                    outcome.oplog.entries_length = entries.len() as u64;
+                    outcome.oplog.entries_byte_length = entry_byte_lengths.iter().sum();
+                    // As in the Javascript implementation, whatever follows the last valid
+                    // entry (a torn entry, entries of a previous header, an unfinished batch)
+                    // is cut off so that it can never be read as an entry later on.
+                    let entries_end =
+                        OplogSlot::Entries as u64 + outcome.oplog.entries_byte_length;
+                    if outcome.infos_to_flush.is_empty() && existing.len() as u64 > entries_end {
+                        outcome.infos_to_flush =
+                            vec![StoreInfo::new_truncate(Store::Oplog, entries_end)]
+                                .into_boxed_slice();
                     }
                     outcome.entries = Some(entries.into_boxed_slice());
                 }
